@@ -27,7 +27,7 @@ EXPLANATION = (
     "passed to DataDir equals the class's _protectedfiles, which contains every file/dir-name "
     "constant of the class.")
 ASSUMPTIONS = [
-    "Path.resolve / os.path.realpath|normpath|abspath normalise './', redundant separators and '..'",
+    "Path.resolve / os.path.realpath normalise './', redundant separators, '..' and symbolic links the way the OS resolves the joined path; os.path.normpath/abspath are lexical only and are reported",
     "not decided: round-trip equality of user JSON/text; spellings that need the OS to resolve differently (case-insensitive file systems)",
 ]
 
@@ -327,7 +327,16 @@ def d2_guard_normalises(ctx, guard, gname, gmode):
                                       for op in c.ops):
             contain = True
     inst = 'guard compares a path-normalised form of the joined path (use sites join the name to the directory)'
-    if raw:
+    LEXICAL = {'normpath', 'abspath'}
+    lexical = [norm(c) for t, c, o, attrs in name_compares if (attrs & LEXICAL) and not (attrs & (NORMALISERS - LEXICAL))]
+    if lexical and not raw:
+        ctx.bad('R-SIB', 'D2', guard, name_compares[0][1], 'normalised-operand',
+                'guard normalises the name the way the use sites resolve it (through the file system)',
+                detail=f'purely lexical normalisation (os.path.normpath/abspath) in `{lexical[0]}`: the use sites hand '
+                       f'the joined path to the OS, which resolves symbolic links before applying "..": a ".." detour '
+                       f'through a symlinked directory, or an array opened through a symlinked parent, names a '
+                       f'protected file that the guard does not recognise')
+    elif raw:
         ctx.bad('R-SIB', 'D2', guard, name_compares[0][1], 'normalised-operand', inst,
                 detail=f'raw argument compared: `{raw[0]}` — Path("README.txt"), "./README.txt" or '
                        f'"x/../README.txt" pass the guard but name the protected file at the use site')
